@@ -274,27 +274,13 @@ def d16_5(ctx):
     lid = drv.methods["_list_identity"]
     good = any(isinstance(r, ast.Return) and attr_path(r.value) == "response.identity" for r in walk(lid)) and any(isinstance(c, ast.Call) and call_name(c) == "ListIdentityRequestPacket" for c in walk(lid))
     ctx.check(good, ckey(drv.key + "._list_identity"), lid, "sends ListIdentity and returns the decoded identity", "_list_identity does not return response.identity of a ListIdentity request")
-    gmi = drv.methods["get_module_info"]
-    g = ctx.cfg(gmi)
-    dec = [n for n in g.nodes if n.kind == "stmt" and any(isinstance(c, ast.Call) and attr_path(c.func) == "ModuleIdentityObject.decode" and attr_path(c.args[0]) == "response.value" for c in walk(n.ast))]
-    tests = [t for t in g.nodes if t.kind == "test" and atom_name(t.ast) == "response"]
-    good = bool(dec) and bool(tests) and all(g.branch_dominates(tests[0], True, d) for d in dec)
-    from ..guards import branch_outcome
+    # get_module_info decodes only a valid reply (ResponseError otherwise); get_plc_info adds the key-switch position with
+    # 'UNKNOWN' for status bytes the table does not know: decided by folding both on witness replies (D16.9, D16.8) - an earlier
+    # form matched the if/else shape and the chained `.get(...).get(...)` expression and alarmed on a guard clause / named locals
+    from .driver import _module_info_rule, d16_8
 
-    if tests:
-        raised, cont = branch_outcome(g, tests[0], False)
-        good = good and raised == {"ResponseError"} and not cont
-    ctx.check(good, ckey(drv.key + ".get_module_info"), gmi, "decodes only a truthy response; otherwise ResponseError", "get_module_info decodes an invalid response or does not raise ResponseError for it")
-    lx = ctx.model.cls(f"{LX}:LogixDriver")
-    gpi = lx.methods["get_plc_info"]
-    good = False
-    for n in walk(gpi):
-        if isinstance(n, ast.Assign) and isinstance(n.targets[0], ast.Subscript) and isinstance(n.targets[0].slice, ast.Constant) and n.targets[0].slice.value == "keyswitch":
-            v = n.value
-            if isinstance(v, ast.Call) and isinstance(v.func, ast.Attribute) and v.func.attr == "get" and len(v.args) == 2 and ctx.folder.eval(v.args[1], lx.module) == "UNKNOWN":
-                inner = v.func.value
-                good = isinstance(inner, ast.Call) and attr_path(inner.func) == "KEYSWITCH.get" and len(inner.args) == 2 and ctx.folder.eval(inner.args[1], lx.module) == {} and src(inner.args[0]).replace('"', "'") == "info['status'][0]" and src(v.args[0]).replace('"', "'") == "info['status'][1]"
-    ctx.check(good, ckey(lx.key + ".get_plc_info", "keyswitch"), gpi, "keyswitch = KEYSWITCH.get(status[0], {}).get(status[1], 'UNKNOWN')", "keyswitch lookup no longer defaults to 'UNKNOWN' on both levels")
+    _module_info_rule(ctx)
+    d16_8(ctx)
 
 
 @rule(P, "D16.6", "T-DOM", floor=1)
